@@ -209,6 +209,7 @@ let () =
       let prev_obs = ref None in
       let diverged = ref false in
       let sent_hist = Hashtbl.create 16 in
+      let must_dead = Hashtbl.create 16 and may_dead = Hashtbl.create 16 and last_nonce = Hashtbl.create 16 in
       let sp = Array.make nt [] in   (* C01: per-thread pending tables computed from the history and the implementation's observations *)
       List.iter (fun b ->
         incr evno; incr nevents;
@@ -302,7 +303,10 @@ let () =
           if inbound && (outs_impl <> [] || (match !prev_obs with Some p -> p <> obs_now | None -> false)) then
             Printf.printf "ORACLE C09 %s %d scope-in | a /localhost packet from a non-local face was not ignored (outputs or table state changed)\n" caseid !evno
         end;
-        if want "C01" then begin
+        let oracle1 fmt = if want "C01" then Printf.printf fmt else Printf.ifprintf stdout fmt in
+        (* slots pending by the history before this event (used by the dead-nonce oracle below) *)
+        let sp_before = Array.copy sp in
+        begin
           (match we with
            | WPacket (EData (now, d)) ->
                let tokkind = if d.d_tok = [] then "no-token" else if List.length d.d_tok = 6 then "token6" else "token-other" in
@@ -311,12 +315,12 @@ let () =
                  let os = outs_of k in
                  let os_str = String.concat "; " (List.map string_of_out os) in
                  if not (c01_data_only_pending s.faces s.tid sp.(k) d os) then
-                   Printf.printf "ORACLE C01 %s %d data-not-pending:%s | Data %s (token %s) from face %s was emitted by thread %d to a face without a matching pending Interest, with a wrong token, or twice: [%s]\n"
+                   oracle1 "ORACLE C01 %s %d data-not-pending:%s | Data %s (token %s) from face %s was emitted by thread %d to a face without a matching pending Interest, with a wrong token, or twice: [%s]\n"
                      caseid !evno tokkind (string_of_name d.d_name) (hex_of_bytes d.d_tok) (dec_of_n d.d_face) k os_str;
                  if not (c01_data_complete s.faces s.tid now sp.(k) d os) then begin
                    let missing = List.filter (fun p -> sat_rec s.tid d p && N.ltb now p.p_exp && not (N.eqb p.p_face d.d_face)) sp.(k) in
                    let dispatched = match pick "thrs" with Some ts -> ts <> "-" && List.mem (string_of_int k) (String.split_on_char ',' ts) | None -> true in
-                   Printf.printf "ORACLE C01 %s %d data-undelivered:%s:%s | Data %s (token %s) from face %s was not delivered to every face with a live pending Interest it satisfies (thread %d of %d%s); sent [%s]; pending: %s\n"
+                   oracle1 "ORACLE C01 %s %d data-undelivered:%s:%s | Data %s (token %s) from face %s was not delivered to every face with a live pending Interest it satisfies (thread %d of %d%s); sent [%s]; pending: %s\n"
                      caseid !evno tokkind
                      (if not dispatched then "not-dispatched" else if d.d_name = [] then "empty-name" else "name")
                      (string_of_name d.d_name) (hex_of_bytes d.d_tok) (dec_of_n d.d_face) k nt
@@ -330,13 +334,13 @@ let () =
                let k = if k < nt then k else 0 in
                let s = pre k in
                if not (c01_cs_reply_ok i outs_all) then
-                 Printf.printf "ORACLE C01 %s %d cs-reply | the reply to Interest %s from face %s went elsewhere, carried another token, or was sent more than once: [%s]\n"
+                 oracle1 "ORACLE C01 %s %d cs-reply | the reply to Interest %s from face %s went elsewhere, carried another token, or was sent more than once: [%s]\n"
                    caseid !evno (string_of_name i.i_name) (dec_of_n i.i_face) outs_impl_str;
                let hk = match select_hint s.regions i.i_hints with Some h -> string_of_name h | None -> "-" in
                (match pick "tok" with
                 | Some t when t <> "-" ->
                     List.iter (fun o -> if o.o_kind = KInterest && o.o_tok <> up_token s.tid (n_of_dec t) then
-                      Printf.printf "ORACLE C01 %s %d upstream-token:%s | Interest %s was forwarded on face %s with PIT token %s, not this forwarder's token %s for its PIT entry (the returning Data cannot be matched)\n"
+                      oracle1 "ORACLE C01 %s %d upstream-token:%s | Interest %s was forwarded on face %s with PIT token %s, not this forwarder's token %s for its PIT entry (the returning Data cannot be matched)\n"
                         caseid !evno (if i.i_nhf <> None then "nexthopfaceid" else "strategy") (string_of_name i.i_name) (dec_of_n o.o_face)
                         (hex_of_bytes o.o_tok) (hex_of_bytes (up_token s.tid (n_of_dec t)))) outs_all
                 | _ -> ());
@@ -352,11 +356,12 @@ let () =
                 | None, Some tok when not answered -> sp.(k) <- pend_interest s.regions sp.(k) now i tok
                 | _ -> ())
            | WLocal (k, ETick now) ->
-               if outs_impl <> [] then Printf.printf "ORACLE C01 %s %d spontaneous | a PIT update emitted packets: [%s]\n" caseid !evno outs_impl_str;
+               if outs_impl <> [] then oracle1 "ORACLE C01 %s %d spontaneous | a PIT update emitted packets: [%s]\n" caseid !evno outs_impl_str;
                let k = int_of_n k in if k < nt then sp.(k) <- pend_tick sp.(k) now
            | _ ->
-               if outs_impl <> [] then Printf.printf "ORACLE C01 %s %d spontaneous | an event that is not a packet arrival emitted packets: [%s]\n" caseid !evno outs_impl_str)
+               if outs_impl <> [] then oracle1 "ORACLE C01 %s %d spontaneous | an event that is not a packet arrival emitted packets: [%s]\n" caseid !evno outs_impl_str)
         end;
+        let sent_hist_snapshot = Hashtbl.copy sent_hist in
         if want "C02" then begin
           (* suppression judged from the history of observed sends: per thread, PIT entry key and upstream token, the last
              (nonce, time) an Interest was sent on each face; cleared when a Data that satisfies the entry arrives *)
@@ -391,6 +396,70 @@ let () =
                      if sat then key :: acc else acc) sent_hist [] in
                  List.iter (Hashtbl.remove sent_hist) dead
                end
+           | _ -> ())
+        end;
+        if want "C02" then begin
+          (* deadness judged from the history: a (name, nonce) surely recorded dead — the previous nonce of a face whose Interest
+             was still pending when its retransmission was taken (InsertInRecord on an existing record) — stays in the list at
+             least until recording time + configured lifetime; recordings whose effect the history cannot settle (name-matched
+             Data, expiry at a PIT update) only make later recordings of the same key uncertain *)
+          let lifeN = !dlife in
+          (match we with
+           | WPacket (EInterest (now, i)) ->
+               let k = thr_of_name i.i_name in
+               let k = if k < nt then k else 0 in
+               let s = pre k in
+               let hk = match select_hint s.regions i.i_hints with Some h -> h | None -> [] in
+               let sent_any = outs_impl <> [] in
+               (match i.i_nonce with
+                | Some x ->
+                    (match Hashtbl.find_opt must_dead (k, i.i_name, x) with
+                     | Some exp when N.ltb now exp && sent_any ->
+                         Printf.printf "ORACLE C02 %s %d dead-nonce-forwarded | Interest %s from face %s carries nonce %s, recorded dead for this name until %s (now %s, dead-nonce lifetime %s ns), but packets were sent: [%s]\n"
+                           caseid !evno (string_of_name i.i_name) (dec_of_n i.i_face) (dec_of_n x) (dec_of_n exp) (dec_of_n now) (dec_of_n lifeN) outs_impl_str
+                     | _ -> ());
+                    (* was it taken (pending per dump or forwarded) while this face's earlier Interest was still pending? *)
+                    let taken = (impl_pending (hget b.bpit k "pit") (string_of_name i.i_name) (b01 i.i_cbp) (b01 i.i_mbf)
+                                   (if hk = [] then "-" else string_of_name hk) (dec_of_n i.i_face) (dec_of_n now) <> None)
+                                || List.exists (fun o -> o.o_kind = KInterest) outs_all in
+                    let slot = (k, i.i_name, i.i_cbp, i.i_mbf, hk, i.i_face) in
+                    let live_before = List.exists (fun p -> N.eqb p.p_face i.i_face && p.p_name = i.i_name && p.p_cbp = i.i_cbp
+                                                            && p.p_mbf = i.i_mbf && p.p_hint = hk && N.ltb now p.p_exp) sp_before.(k) in
+                    if taken then begin
+                      (match Hashtbl.find_opt last_nonce slot with
+                       | Some prev when live_before ->
+                           let key = (k, i.i_name, prev) in
+                           if not (Hashtbl.mem must_dead key) && not (Hashtbl.mem may_dead key) then
+                             Hashtbl.replace must_dead key (N.add now lifeN)
+                       | Some prev ->
+                           let key = (k, i.i_name, prev) in
+                           if not (Hashtbl.mem must_dead key) then Hashtbl.replace may_dead key (N.add now lifeN)
+                       | None -> ());
+                      Hashtbl.replace last_nonce slot x
+                    end
+                | None -> ())
+           | WPacket (EData (now, d)) ->
+               (* out-record nonces of the satisfied entries are recorded under the Data name: which of them, the history does not settle *)
+               if data_effective pre0.faces d then
+                 Hashtbl.iter (fun (k, nm, cbp, _, _, utok) hist ->
+                     let sat = match data_token d.d_tok with
+                       | Some (th, tk) -> int_of_n th = k && N.eqb tk utok
+                       | None -> is_prefix nm d.d_name && (cbp || List.length nm = List.length d.d_name) in
+                     if sat then List.iter (fun (_, x, _) ->
+                         let key = (k, d.d_name, x) in
+                         if not (Hashtbl.mem must_dead key) then Hashtbl.replace may_dead key (N.add now lifeN)) hist) sent_hist_snapshot
+           | WLocal (k, ETick now) ->
+               let k = int_of_n k in
+               Hashtbl.iter (fun (k', nm, _, _, _, _) hist ->
+                   if k' = k then List.iter (fun (_, x, _) ->
+                       let key = (k, nm, x) in
+                       if not (Hashtbl.mem must_dead key) then Hashtbl.replace may_dead key (N.add now lifeN)) hist) sent_hist
+           | WLocal (k, ESweep now) ->
+               let k = int_of_n k in
+               let drop tbl = let dead = Hashtbl.fold (fun ((k', _, _) as key) exp acc -> if k' = k && N.ltb exp now then key :: acc else acc) tbl [] in
+                 List.iter (Hashtbl.remove tbl) dead in
+               if Hashtbl.length must_dead + Hashtbl.length may_dead < 90 then (drop must_dead; drop may_dead)
+               else (Hashtbl.reset must_dead)
            | _ -> ())
         end;
         if want "C02" && pre_ok then begin
